@@ -95,8 +95,8 @@ static struct {
   uint64_t watch_hits;
   uint64_t watch_hits_t[VS_MAX_THREADS];
   uint64_t points_t[VS_MAX_THREADS];
-  int stalled_tid;  // thread held back by the stall strategy, -1 none
-  uint64_t stall_since;
+  int stalled_tid;  // number of threads currently held back by the stall strategy (name kept: >= 0 means "some")
+  uint64_t stall_since_t[VS_MAX_THREADS];
   range_t watch[MAX_RANGES];
   int n_watch;
   range_t stacks[512];
@@ -589,6 +589,9 @@ static void record_decision(int tid) {
   }
 }
 
+static int replay_take(void);
+static void set_next_event_replay(void);
+static void engage_fair(void);
 static void switch_to(vthread_t* nt) {
   vthread_t* ot = vs.cur;
   if (nt == ot) return;
@@ -620,6 +623,22 @@ static void switch_to(vthread_t* nt) {
   vs_ctx_switch(&ot->sp, nt->sp);
   // back on ot
   errno = ot->saved_errno;
+  if (vs.cfg.strategy == VS_STRAT_REPLAY && !vs.replay_diverged) {
+    // the recorded run may have switched away again at this very point (a thread resumed inside a scheduling
+    // point goes on to the "event due?" test with the point counter the others advanced): take those now
+    int tid;
+    while ((tid = replay_take()) >= 0) {
+      if (tid == ot->id) continue;
+      if (tid >= vs.nth || vs.th[tid].state != 1) {
+        vs.replay_diverged = 1;
+        vs_label_add("replay_diverged", 1);
+        engage_fair();
+        return;
+      }
+      switch_to(&vs.th[tid]);
+    }
+    set_next_event_replay();
+  }
 }
 
 static vthread_t* pick_highest(void) {
@@ -631,13 +650,16 @@ static vthread_t* pick_highest(void) {
   }
   return best;
 }
-static void release_stall(void) {
-  if (vs.stalled_tid >= 0) {
-    vs.th[vs.stalled_tid].state = 1;
-    vs.stalled_tid = -1;
-    vs_label_add("stall_released", 1);
-  }
+// release the stalled threads whose time is up (or all of them when 'all' is set)
+static void release_stall_ex(int all) {
+  for (int i = 0; i < vs.nth; i++)
+    if (vs.th[i].state == 4 && (all || vs.fair || vs.points - vs.stall_since_t[i] > vs.cfg.stall_len)) {
+      vs.th[i].state = 1;
+      vs.stalled_tid--;
+      vs_label_add("stall_released", 1);
+    }
 }
+static void release_stall(void) { release_stall_ex(1); }
 static vthread_t* pick_random_other(void) {
   int n = 0;
   vthread_t* c[VS_MAX_THREADS];
@@ -711,7 +733,7 @@ static void budget_check(void) {
 }
 
 static inline void stall_check(void) {
-  if (vs.stalled_tid >= 0 && (vs.points - vs.stall_since > vs.cfg.stall_len || vs.fair)) release_stall();
+  if (vs.stalled_tid > 0) release_stall_ex(0);
 }
 // the running thread cannot usefully continue (spin / idle poll): let others run
 static void forced_yield(void) {
@@ -815,9 +837,9 @@ static void slow_path(void) {
 
 static int runnable_count(void);
 static void do_stall(vthread_t* t) {
-  if (vs.stalled_tid >= 0 || vs.fair || runnable_count() <= 1) return;
-  vs.stalled_tid = t->id;
-  vs.stall_since = vs.points;
+  if (vs.stalled_tid >= 2 || vs.fair || runnable_count() <= 1) return;
+  vs.stalled_tid++;
+  vs.stall_since_t[t->id] = vs.points;
   t->state = 4;  // stalled
   vs_label_add("stalled", 1);
   vthread_t* nt = pick_random_other();
@@ -828,12 +850,15 @@ static void do_stall(vthread_t* t) {
     release_stall();
   }
 }
+static inline int stall_hit(int tid, uint64_t idx) {
+  return (vs.cfg.stall_thread == tid + 1 && idx == vs.cfg.stall_at) || (vs.cfg.stall_thread2 == tid + 1 && idx == vs.cfg.stall_at2);
+}
 static inline void watch_hit(void) {
   vs.watch_hits++;
   vthread_t* t = vs.cur;
   vs.watch_hits_t[t->id]++;
   // stall strategy: hold ONE thread at one of ITS OWN accesses to the watched object while all the others run on
-  if (!vs.cfg.stall_any && vs.cfg.stall_thread == t->id + 1 && vs.watch_hits_t[t->id] == vs.cfg.stall_at) {
+  if (!vs.cfg.stall_any && vs.cfg.stall_thread && stall_hit(t->id, vs.watch_hits_t[t->id])) {
     do_stall(t);
     return;
   }
@@ -868,11 +893,10 @@ static inline void sched_point(uintptr_t a, int size, int is_write) {
   if (vs.cfg.tso) tso_capture(t);
   vs.points++;
   t->run_len++;
-  if (vs.cfg.stall_thread == t->id + 1) {
+  {
     // "stall at any access" flavour: the thread's own k-th scheduling point
-    if (++vs.points_t[t->id] == vs.cfg.stall_at && vs.cfg.stall_any) do_stall(t);
-  } else {
-    vs.points_t[t->id]++;
+    uint64_t idx = ++vs.points_t[t->id];
+    if (vs.cfg.stall_any && vs.cfg.stall_thread && stall_hit(t->id, idx)) do_stall(t);
   }
   if (vs.n_watch) {
     for (int i = 0; i < vs.n_watch; i++)
@@ -922,7 +946,7 @@ static void thread_finish(void) {
       if (tid >= 0 && tid < vs.nth && vs.th[tid].state == 1) nt = &vs.th[tid];
     }
     if (!nt) nt = (vs.cfg.strategy == VS_STRAT_PCT && !vs.fair) ? pick_highest() : pick_next_rr();
-    if (!nt && vs.stalled_tid >= 0) {
+    if (!nt && vs.stalled_tid > 0) {
       release_stall();
       nt = pick_next_rr();
     }
@@ -1002,7 +1026,7 @@ void vs_thread_join(int tid) {
       if (r >= 0 && r < vs.nth && vs.th[r].state == 1) nt = &vs.th[r];
     }
     if (!nt) nt = (vs.cfg.strategy == VS_STRAT_PCT && !vs.fair) ? pick_highest() : pick_next_rr();
-    if (!nt && vs.stalled_tid >= 0) {
+    if (!nt && vs.stalled_tid > 0) {
       release_stall();
       nt = pick_next_rr();
     }
@@ -1059,7 +1083,7 @@ int vs_run_inproc(const vs_config_t* cfg, vs_main_fn fn, void* arg) {
   vs.watch_hits = 0;
   bset_(vs.watch_hits_t, 0, sizeof vs.watch_hits_t);
   bset_(vs.points_t, 0, sizeof vs.points_t);
-  vs.stalled_tid = -1;
+  vs.stalled_tid = 0;
   if (!vs.cfg.stall_len) vs.cfg.stall_len = 20000;
   vs.n_watch = 0;
   vs.n_stacks = 0;
